@@ -34,7 +34,7 @@ def floors(ctx):
     q = ctx.tier == "quick"
     return {"evaluations": 800 if q else 8000, "edges_checked": 2000 if q else 20000, "internal_selfloops": 100,
             "graphs_with_parallel": 50, "graphs_with_mixed_kinds": 50, "links_leaving_universe": 100,
-            "empty_universe": 3, "undirected_merged_pairs": 20}
+            "empty_universe": 3, "undirected_merged_pairs": 20, "universes_over_256_members": 1}
 
 
 def run_case(ctx, spec, with_funcs):
@@ -49,6 +49,8 @@ def run_case(ctx, spec, with_funcs):
     net = res[1]
     members = g.uni.vertices
     n = len(members)
+    if n > 256:
+        ctx.count("universes_over_256_members")
     if not members:
         ctx.count("empty_universe")
     ids = list(net.get_nodes())
@@ -145,6 +147,14 @@ def run(ctx):
     specs.append({"verts": ["Vertex", "Vertex"], "edges": [], "uni": []})
     for c in ("DirectedEdge", "UnDirectedEdge", "OtherLink", "DSubSub"):
         specs.append({"verts": ["Vertex", "VSub"], "edges": [[c, 0, 0, 0], [c, 1, 0, 1]], "uni": [0, 1]})
+    # sizes around CPython's small-int cache (256/257) and beyond: indices are compared / stored per vertex
+    brng = random.Random(1515)
+    for nbig in (256, 257, 300, 600):
+        edges = []
+        for i in range(nbig):
+            edges.append([brng.choice(graphs.ECLS_ALL), i, i, 0])          # a self-loop on every member
+            edges.append([brng.choice(graphs.ECLS_ALL), i, (i * 7 + 1) % nbig, 1])
+        specs.append({"verts": ["Vertex"] * nbig, "edges": edges, "uni": list(range(nbig))})
     n_random = 12000 if quick else 30000
     k = 0
     for n in range(len(specs) + n_random):
